@@ -144,9 +144,11 @@ CHECKS["C14"] = dict(
           "histories (pose sources incl. one buffer / one stack slot overwritten in place and handed over again; tracking, drift and "
           "trajectory-player histories) the layout model is validated against arr.flags and raised exception types, and every query inside the "
           "history as well as the final battery is compared bitwise with a NEW object built at the pose reached so far. Outside the property: "
-          "queries between the caller's in-place mutation of a pose array and the next update_pose. Not seen by the reader (audit): a new "
-          "compiled callee outside its entry-point list, signatures of containment.*_aabb other than box_aabb, an update_pose inherited by a "
-          "new subclass, mutation through method calls. Known findings: none."),
+          "queries between the caller's in-place mutation of a pose array and the next update_pose. The source reader is fail-closed by whole-body pins: "
+          "every method of every class in colliders.py and of the mesh support functor is compared (normalised syntax tree) with a reference "
+          "stored beside the model; unknown classes, methods, decorators, signatures of callees, in-place stores into arguments or module state "
+          "are refused (a refusal = broken obligation, stale tables are never evidence). Limits: the pins are syntactic (a harmless refactoring is "
+          "refused too); subclasses or monkeypatching in other modules and make_artist bodies are not seen. Known findings: none."),
     design_ref="DESIGN.md section 5, C14",
     technique="Coq proof by induction over operation histories on a model regenerated from the source (ast reader) + history correspondence",
     note=TB + "; no axioms in Props/C14.v; harness/tables_c14.py (ast reader) is trusted; numerical kernels are abstract functions of attribute data in the model",
@@ -171,8 +173,10 @@ CHECKS["C17"] = dict(
           "the rim-point hypotheses (counter-clockwise, sectors apart: checked exactly), RigidBody read / express_in histories. TIE, every run: "
           "bit-exact binary64 run of the model vs the implementation for EVERY factory (vertices, elements, potentials), helpers bit-exact / "
           "1e-12 (com), RigidBody twins and histories, class boundaries hit exactly; line coverage measured (328/328, 12/12, 51/60). The reader "
-          "is fail-closed for the literal tables and element loops only: icosphere prologue, sphere / ellipsoid wrappers, box corner loops, "
-          "cylinder class dispatch and capsule vertex loops are pinned by the bit-exact run alone. Known findings: none."),
+          "is fail-closed by whole-body pins: all 13 functions of _tetra_mesh_creation.py and the CylinderClass enum are compared (normalised "
+          "syntax tree) with references stored beside the model, the literal tables are extracted as data and re-proved; a refusal is a broken "
+          "obligation and stale tables are never evidence. Limits: the pins are syntactic; nothing outside _tetra_mesh_creation.py is read "
+          "(RigidBody.make_* and _mesh_processing.py are tied by the bit-exact model runs only). Known findings: none."),
     design_ref="DESIGN.md section 5, C17",
     technique="Coq proofs about a Gallina model (polynomial reflection, induction over sectors / subdivision order) with tables re-extracted from the source + bit-exact binary64 correspondence + proven certificate checker",
     note=TB + "; " + RA + "; harness/tables_c17.py (ast reader) and harness/c17_oracle.py are trusted; numpy cos/sin/ceil/clip evaluated by the harness for the model's trig inputs; scipy ConvexHull only as untrusted witness",
